@@ -213,6 +213,19 @@ def check_ladder(case):
                 pdf = np.array([_normal_pdf(v, lm, ls) for v in x])
                 P[(z0, n)] = float(fp.pf_arbitrary_load(x, pdf))
                 nev += 1
+        # the same pair of arrays (one sampled load density) handed to several calls: asked again, asked of another
+        # strength object, asked again - the answers for the same question must be the same number
+        n = GRIDS[1]
+        lm = math.log10(sm) + Z0S[0] * tot
+        x = np.linspace(lm - 8 * ls, lm + 8 * ls, n)
+        pdf = np.array([_normal_pdf(v, lm, ls) for v in x])
+        first = float(fp.pf_arbitrary_load(x, pdf))
+        again = float(fp.pf_arbitrary_load(x, pdf))
+        float(FailureProbability(1.1 * sm, ss).pf_arbitrary_load(x, pdf))
+        third = float(fp.pf_arbitrary_load(x, pdf))
+        nev += 4
+        if not (first == again == third):
+            viol.append(("C15/pf_arbitrary_load/same-arrays-asked-again", {"z0": Z0S[0], "grid_points": n, "answers": [first, again, third]}))
         for z0 in Z0S + Z0S_TAIL:
             e = _N01.cdf(z0)
             errs = [abs(P[(z0, n)] - e) for n in GRIDS]
